@@ -2,7 +2,7 @@
 # tools/run_all.sh [tier] [seed]  - runs every registered check, prints one line per check
 cd "$(dirname "$(readlink -f "$0")")/.." || exit 2
 TIER=${1:-quick}; SEED=${2:-0}
-for i in $(seq -w 1 20); do
+for i in ${ONLY:-$(seq -w 1 20)}; do
   id=C$i
   s=$(date +%s)
   out=$(VERIF_SEED=$SEED ./check $id --tier $TIER 2>&1); rc=$?
